@@ -14,6 +14,8 @@ case kinds
          ["fail", 0] on the first ValueError  |  ["other", name]
   {"mode": "chips", "chips": [[x, y, level or null], ...]}
       -> ["ok", [word, ...]]
+  compress cases may carry "mapping": "lazy" | "lazy-items" (a collections.abc.Mapping that creates a fresh core collection
+  per access) | "defaultdict" | "plaindict"
   compress / tree cases may carry "dtype": name of a numpy integer dtype (coordinates and core numbers are given as
   numpy scalars of that type); compress cases may carry "raise_after": n (the mapping's iteration raises after n items)
   {"mode": "tree_rw", "level": l, "ops": [["add", x, y, p] | ["read"], ...]}   one tree, traversed repeatedly
@@ -28,7 +30,8 @@ case kinds
       -> ["ok", [[[region, coremask], ...] or exception name, ...]]   one entry per mask in range(lo, hi)
 """
 import operator
-from collections import OrderedDict
+from collections import OrderedDict, defaultdict
+from collections.abc import Mapping
 
 from rig.machine_control.regions import (get_region_for_chip, compress_flood_fill_regions,
                                          RegionCoreTree)
@@ -62,7 +65,52 @@ class RaisingMapping(OrderedDict):
             yield kv
 
 
+class LazyTargets(Mapping):
+    """A caller's mapping that builds each chip's core collection ON DEMAND: every access creates a fresh object
+    (which is freed as soon as the caller lets go of it)."""
+
+    def __init__(self, spec, make):
+        self.spec = OrderedDict(((x, y), list(cores)) for x, y, cores in spec)
+        self.make = make
+
+    def __getitem__(self, chip):
+        return self.make(self.spec[chip])
+
+    def __iter__(self):
+        return iter(self.spec)
+
+    def __len__(self):
+        return len(self.spec)
+
+
+class LazyItemsTargets(LazyTargets):
+    def items(self):
+        for chip in self.spec:
+            yield chip, self.make(self.spec[chip])
+
+
 def run_case(c):
+    if c["mode"] == "compress" and c.get("mapping") in ("lazy", "lazy-items", "defaultdict", "plaindict"):
+        cv = conv(c.get("dtype"))
+        make = (lambda ps: set(cv(p) for p in ps)) if c["container"] == "set" else (lambda ps: [cv(p) for p in ps])
+        spec = [[cv(x), cv(y), cores] for x, y, cores in c["targets"]]
+        if c["mapping"] == "lazy":
+            targets = LazyTargets(spec, make)
+        elif c["mapping"] == "lazy-items":
+            targets = LazyItemsTargets(spec, make)
+        else:
+            targets = defaultdict(set) if c["mapping"] == "defaultdict" else {}
+            for x, y, cores in spec:
+                targets[(x, y)] = make(cores)
+        # equal collections built the same way iterate in the same order
+        order = [[int(x), int(y), int(p)] for x, y, cores in spec for p in make(cores)]
+        try:
+            out = [[plain(r), plain(m)] for r, m in compress_flood_fill_regions(targets)]
+        except ValueError:
+            return ["fail", 0, order]
+        except Exception as e:
+            return ["other", type(e).__name__, order]
+        return ["ok", order, out]
     if c["mode"] == "compress":
         cv = conv(c.get("dtype"))
         targets = OrderedDict()
